@@ -2,7 +2,7 @@
 from concurrent.futures import ThreadPoolExecutor
 
 from props import _gridutil as U
-from translators import tables
+from translators import tables, py_kernels
 
 ID = "C01"
 PROP_FILE = "props/C01.v"
@@ -34,6 +34,7 @@ def regen(ctx):
         ctx.src(s)
     ctx.tables = {"tri": ctx.translate(tables.tri_tables), "gauss": ctx.translate(tables.gauss_tables),
                   "duffy": ctx.translate(tables.duffy_regions)}
+    ctx.nb = ctx.translate(py_kernels.numba_kernels)  # gen/NumbaKernels.v for the kernel-derivative theorems
 
 
 def _zs(xs):
